@@ -258,8 +258,8 @@ def _ids(run, P):
         rets = [n for n in ast.walk(fp.node) if isinstance(n, ast.Call)
                 and dotted(n.func) == "ExecutionPhase"]
         ok = any(dotted(kwarg(r, "statements")) == first for r in rets) \
-            and norm(asg[0].value.args[0]) == "phase1.statements" \
-            and norm(asg[0].value.args[1]) == "phase2.statements"
+            and norm(asg[0].value.args[0]) == f"{fp.arg(1)}.statements" \
+            and norm(asg[0].value.args[1]) == f"{fp.arg(2)}.statements"
     run.ob("C16.ids", fp, asg[0] if asg else fp.node, ok,
            construct="ExecutionPhase(statements=<first result of disambiguate_and_fuse(phase1.statements, phase2.statements, ...)>)",
            why="the fused phase must contain the statements of both with unique ids")
@@ -284,8 +284,8 @@ def _agree(run, P):
     fp = P.func(f"{MOD}.fuse_two_phases")
     g = CFG(fp.node)
     tests = [n for n in g.nodes if n.kind == "test"
-             and norm(n.ast) in ("phase1.next_phase != phase2.next_phase",
-                                 "phase2.next_phase != phase1.next_phase")]
+             and norm(n.ast) in (f"{fp.arg(1)}.next_phase != {fp.arg(2)}.next_phase",
+                                 f"{fp.arg(2)}.next_phase != {fp.arg(1)}.next_phase")]
     fuse = [n for n in g.nodes if n.kind == "stmt" and "disambiguate_and_fuse(" in ast.unparse(n.ast)]
     ok = bool(tests) and bool(fuse) and not g.always_preceded(fuse, tests) \
         and isinstance(tests[0].label.body[0], ast.Raise)
@@ -295,8 +295,8 @@ def _agree(run, P):
     fd = P.func(f"{MOD}.fuse_two_dags")
     g = CFG(fd.node)
     tests = [n for n in g.nodes if n.kind == "test"
-             and norm(n.ast) in ("dag1.initial_phase != dag2.initial_phase",
-                                 "dag2.initial_phase != dag1.initial_phase")]
+             and norm(n.ast) in (f"{fd.arg(0)}.initial_phase != {fd.arg(1)}.initial_phase",
+                                 f"{fd.arg(1)}.initial_phase != {fd.arg(0)}.initial_phase")]
     rets = [n for n in g.nodes if n.kind == "stmt" and isinstance(n.ast, ast.Return)]
     ok = bool(tests) and not g.always_preceded(rets, tests) \
         and isinstance(tests[0].label.body[0], ast.Raise)
